@@ -3,8 +3,11 @@
 d=$(readlink -f "$1"); prop="$2"; tier="${3:-quick}"
 cd /verif
 git -C /repo apply "$d/patch.diff" || { echo "patch does not apply"; exit 2; }
+# the evidence file of a run on a changed tree must never be committed: keep the clean one
+cp "evidence/$prop.json" "/tmp/evidence_$prop.keep" 2>/dev/null
 ./check "$prop" "$tier" | grep -v '^KNOWN-FINDING' | tail -6
 rc=${PIPESTATUS[0]}
+cp "/tmp/evidence_$prop.keep" "evidence/$prop.json" 2>/dev/null
 git -C /repo apply -R "$d/patch.diff" || git -C /repo checkout -- .
 git -C /repo status --short | grep -v '^??' | head -3
 exit $rc
